@@ -157,6 +157,14 @@ func runStripe(b *built, opt checkOpts, inf core.Info, w, nRuns int, deadline ti
 		}
 		var inf2 core.Inflight
 		json.Unmarshal(raw, &inf2)
+		if ee, ok := runErr.(*exec.ExitError); ok && ee.ExitCode() == core.ExitRecycle && inf2.Recycle {
+			// the worker grew too large and asks for a fresh process
+			start = inf2.Run
+			if time.Now().After(deadline) {
+				return
+			}
+			continue
+		}
 		sig, msg := classifyDeath(opt.ID, runErr, stderr.String(), inf)
 		mu.Lock()
 		if sig == "" {
@@ -489,25 +497,25 @@ func runCheck(opt checkOpts) int {
 		"violations":  violations,
 		"assumptions": inf.Assumptions,
 		"coverage": map[string]any{
-			"evaluations":            agg.evals,
-			"plans":                  agg.records,
-			"plans_requested":        nRuns,
-			"nontrivial_plans":       agg.nontrivial,
-			"distinct_nontrivial":    len(agg.hashes),
-			"rule":                   inf.Rule,
-			"samples":                agg.samples,
-			"runs_per_hour":          int(float64(agg.evals) / (runS + 0.001) * 3600),
-			"simulated_seconds":      round1(float64(agg.simNanos) / 1e9),
-			"faults_fired":           agg.faults,
-			"probes":                 agg.probes,
-			"stalled_runs":           agg.stalled,
-			"findings":               reports,
-			"real_components":        inf.Real,
-			"simulated_components":   inf.Stub,
-			"build_s":                round1(buildS),
-			"race_detector":          b.Race,
-			"workers":                opt.Workers,
-			"infrastructure_trouble": agg.infra,
+			"evaluations":               agg.evals,
+			"plans":                     agg.records,
+			"plans_requested":           nRuns,
+			"nontrivial_plans":          agg.nontrivial,
+			"distinct_nontrivial":       len(agg.hashes),
+			"rule":                      inf.Rule,
+			"samples":                   agg.samples,
+			"runs_per_hour":             int(float64(agg.evals) / (runS + 0.001) * 3600),
+			"simulated_seconds":         round1(float64(agg.simNanos) / 1e9),
+			"faults_fired":              agg.faults,
+			"probes":                    agg.probes,
+			"stalled_runs":              agg.stalled,
+			"findings":                  reports,
+			"real_components":           inf.Real,
+			"simulated_components":      inf.Stub,
+			"build_s":                   round1(buildS),
+			"race_detector":             b.Race,
+			"workers":                   opt.Workers,
+			"infrastructure_trouble":    agg.infra,
 			"unconfirmed_watchdog_hits": unconfirmed,
 		},
 	}
